@@ -1,6 +1,7 @@
 package rules
 
 import (
+	"go/constant"
 	"go/ast"
 	"go/token"
 	"go/types"
@@ -234,12 +235,30 @@ func c08R2(p *core.Program, r *core.Report) {
 	dir, _ := core.Resolve(info, f.Body, cs.Call.Args[0])
 	dsel, ok := ast.Unparen(dir).(*ast.SelectorExpr)
 	okArgs := ok && dsel.Sel.Name == "Dir" && constStrIs(info, cs.Call.Args[1], "")
+	dropsSumFile := false
 	if okArgs {
-		if fn, isFn := info.ObjectOf(selIdent(cs.Call.Args[2])).(*types.Func); !isFn || fn.FullName() != "golang.org/x/mod/sumdb/dirhash.Hash1" {
+		fn, isFn := info.ObjectOf(selIdent(cs.Call.Args[2])).(*types.Func)
+		switch {
+		case isFn && fn.FullName() == "golang.org/x/mod/sumdb/dirhash.Hash1":
+		case isFn && p.FuncOfObj(fn) != nil:
+			// a hash function of the library: Hash1 over the listed files, leaving out nothing but the sum file
+			var why string
+			dropsSumFile, why = hash1WithoutSumFile(p, p.FuncOfObj(fn))
+			if why != "" {
+				okArgs = false
+			}
+		default:
 			okArgs = false
 		}
 	}
-	r.Check(okArgs, rule, f, "the current sum is Hash1 of the package's own directory", cs.Call.Pos(), "HashDir(p.Dir, \"\", dirhash.Hash1)", "the hash is not taken over the package directory (p.Dir) with dirhash.Hash1: edits in the package directory may not change it")
+	r.Check(okArgs, rule, f, "the current sum is Hash1 of the package's own directory", cs.Call.Pos(), "HashDir(p.Dir, \"\", Hash1) - directly or through a function that leaves out nothing but the sum file", "the hash is not taken over the package directory (p.Dir) with dirhash.Hash1: edits in the package directory may not change it")
+	// R9: "a run on unchanged inputs converges to a state where nothing is regenerated and nothing changes": the file the
+	// hashes are recorded in is not part of what is hashed. DirFiles lists every file below the directory; for the package
+	// in the module root that includes gengo.sum (sumfile.Save writes it to the module's Dir), whose content changes with
+	// every hash recorded for that package - its recorded hash can never equal its next load-time hash.
+	r.Floor("R9", 1)
+	r.Check(dropsSumFile, "R9", f, "the sum file is not part of the directory hash it records", cs.Call.Pos(), "the hash function drops the file named like the sum file before hashing",
+		"every file below the package directory is hashed, gengo.sum included when the package sits in the module root: recording that package's hash changes gengo.sum, which changes the package's next load-time hash - the package is regenerated and gengo.sum rewritten by every run, unchanged inputs never converge")
 	// result stored under p.PkgPath of the same p
 	var hv *types.Var
 	g := graph(f)
@@ -859,4 +878,101 @@ func c08R6(p *core.Program, r *core.Report) {
 	if n == 0 {
 		r.OK(rule, nil, "the library builds no GeneratorArgs value of its own", token.NoPos, "the context consults the caller's arguments")
 	}
+}
+
+// hash1WithoutSumFile: h is `func(files []string, open ...) (string, error)` that returns dirhash.Hash1(files', open)
+// with files' = files, or files after slices.DeleteFunc(files, func(name) bool { return name == <sum file name> }).
+// Answers whether the sum file is dropped, and why h is not of that form ("" when it is).
+func hash1WithoutSumFile(p *core.Program, h *core.Func) (drops bool, why string) {
+	if h.Decl == nil || h.Body == nil || h.Decl.Type.Params == nil {
+		return false, "not a declared function"
+	}
+	h = flatten(p, h)
+	info := h.Info()
+	var params []*types.Var
+	for _, fld := range h.Decl.Type.Params.List {
+		for _, nm := range fld.Names {
+			v, _ := info.ObjectOf(nm).(*types.Var)
+			params = append(params, v)
+		}
+	}
+	if len(params) != 2 || params[0] == nil || params[1] == nil {
+		return false, "not a function of (files, open)"
+	}
+	files, open := params[0], params[1]
+	sumName := sumFileName(p)
+	if sumName == "" {
+		return false, "the sum file's name constant was not found in pkg/sumfile"
+	}
+	// every definition of files is the parameter itself filtered by the sum file's name
+	for _, d := range core.DefsOf(info, h.Body, files) {
+		c, isCall := ast.Unparen(d.Rhs).(*ast.CallExpr)
+		if !isCall || core.CalleeName(info, c) != "slices.DeleteFunc" || len(c.Args) != 2 || core.VarOf(info, c.Args[0]) != files {
+			return false, "the file list is redefined by `" + core.ExprStr(d.Stmt) + "`"
+		}
+		lit, isLit := ast.Unparen(c.Args[1]).(*ast.FuncLit)
+		if !isLit || len(lit.Body.List) != 1 || lit.Type.Params == nil || len(lit.Type.Params.List) != 1 || len(lit.Type.Params.List[0].Names) != 1 {
+			return false, "the filter is not a one-line predicate"
+		}
+		name, _ := info.ObjectOf(lit.Type.Params.List[0].Names[0]).(*types.Var)
+		ret, isRet := lit.Body.List[0].(*ast.ReturnStmt)
+		if !isRet || len(ret.Results) != 1 {
+			return false, "the filter is not a one-line predicate"
+		}
+		b, isBin := ast.Unparen(ret.Results[0]).(*ast.BinaryExpr)
+		if !isBin || b.Op != token.EQL {
+			return false, "the filter drops more than one name: `" + core.ExprStr(ret.Results[0]) + "`"
+		}
+		x, y := b.X, b.Y
+		if core.VarOf(info, y) == name {
+			x, y = y, x
+		}
+		if core.VarOf(info, x) != name || name == nil || !constStrIs(info, y, sumName) {
+			return false, "the filter does not compare the file name with the sum file's name: `" + core.ExprStr(ret.Results[0]) + "`"
+		}
+		drops = true
+	}
+	n := 0
+	bad := ""
+	ast.Inspect(h.Body, func(m ast.Node) bool {
+		if _, isLit := m.(*ast.FuncLit); isLit {
+			return false
+		}
+		ret, isRet := m.(*ast.ReturnStmt)
+		if !isRet {
+			return true
+		}
+		n++
+		if len(ret.Results) != 1 {
+			bad = "`" + core.ExprStr(ret) + "`"
+			return true
+		}
+		c, isCall := ast.Unparen(ret.Results[0]).(*ast.CallExpr)
+		if !isCall || core.CalleeName(info, c) != "golang.org/x/mod/sumdb/dirhash.Hash1" || len(c.Args) != 2 || core.VarOf(info, c.Args[0]) != files || core.VarOf(info, c.Args[1]) != open {
+			bad = "`" + core.ExprStr(ret) + "`"
+		}
+		return true
+	})
+	if n == 0 || bad != "" {
+		return drops, "does not return dirhash.Hash1(files, open): " + bad
+	}
+	return drops, ""
+}
+
+// sumFileName: the constant file name sumfile.Save joins onto the module directory.
+func sumFileName(p *core.Program) string {
+	save := p.FuncByName("pkg/sumfile", "(*File).Save")
+	if save == nil {
+		return ""
+	}
+	info := save.Info()
+	name := ""
+	for _, c := range core.Calls(save.Body, true) {
+		if core.CalleeName(info, c) == "path/filepath.Join" && len(c.Args) == 2 {
+			if tv, ok := info.Types[c.Args[1]]; ok && tv.Value != nil && tv.Value.Kind() == constant.String {
+				name = constant.StringVal(tv.Value)
+			}
+		}
+	}
+	return name
 }
